@@ -292,3 +292,11 @@ _extend("C16", "one-sided success returns", "Also decides that vnacal_delete_par
 _extend("C12", "failure-class rule for silent allocating helpers", "Also decides that the failure of a helper that allocates and reports nothing itself is "
                "reported as a system error (errno kept) unless errno is examined first.")
 _extend("C13", "mark/count pairing of vnaproperty_quote_key", "Also decides that every position marked for quoting advances the counter that sizes the quoted key.")
+_extend("C09", "strtol-narrowing rule", "Also decides that no integer scanned from a file becomes an int without a range check.")
+_extend("C13", "strtol-narrowing rule", "Also decides that a list subscript in a descriptor is range-checked before it becomes an int (no overflow of index + 1).")
+_extend("C12", "destructor-infallibility rule", "Also decides that no destructor releases a member through a discarded call that itself needs memory.")
+_extend("C10", "NaN-safe ascending-order refusals", "Also decides that every ascending-order refusal of a user frequency vector refuses NaN elements.")
+_extend("C19", "no absolute threshold in MATH refusals", "Also decides that no singular/cannot-solve verdict compares a computed quantity with a non-zero literal "
+               "(one recorded finding: the analytic TRL solver).")
+_extend("C17", "no absolute threshold in MATH refusals", "Also decides the same for the TRL path, whose verdict must not depend on the scale in which equivalent "
+               "measurements are expressed (recorded finding).")
